@@ -470,6 +470,16 @@ def gen_cases(rng: Rng, tier):
             comps = [dict(type="dense1", t=[rs(x) for x in _grid(rng, m)], X=_S(_dynrange(rng, N, m)), ck="dynrange", int=False, layout="C"),
                      _dense_comp(rng, N)]
             yield dict(kind="multi", mix="dd", comps=comps, **opts, ck="dynrange", uw_form="float-array", uw=["0", "4"])
+    # structured, in every run: AMPLITUDE of the whole data set: a X for a = 2^-60 .. 2^60 (exact), mean level comparable to the spread;
+    # every operation must be exactly homogeneous (degree 1: center, norm; 2: rescale weight; 0: normalised / standardised / rescaled values)
+    for flavour in ("dense1", "dense2", "basis1", "irregular-points", "irregular-nan", "multivariate"):
+        N, m = rng.randint(3, 6), rng.randint(6, 9)
+        X = [[Fraction(rng.randint(-6, 6) + 3 + (j % 3)) for j in range(m)] for _ in range(N)]
+        keep = [[(j + i) % 4 != 1 or j in (0, m - 1) for j in range(m)] for i in range(N)]
+        B = [[Fraction(rng.randint(-4, 4)) for _ in range(m)] for _ in range(2)]
+        B[0] = [b if b != 0 else Fraction(1) for b in B[0]]
+        yield dict(kind="scale", flavour=flavour, t=[rs(x) for x in rng.grid(m, uniform=True)], X=_S(X), keep=keep, B=_S(B),
+                   C=_S([[Fraction(rng.randint(-5, 5) + 2) for _ in range(2)] for _ in range(N)]), ck="rand", stand=rng.random() < 0.5)
     # structured, in every run: MEMORY LAYOUT of the values (column-major, transposed table, strided slice of a finer table, negative strides):
     # dense 1-D / 2-D and every observation of irregular data
     for lay in ("F", "T", "strided", "neg"):
@@ -1024,9 +1034,59 @@ def _impl_multi(case, out):
     }, out)
 
 
+def _impl_scale(case):
+    from c09 import _sweep
+    from FDApy.representation.functional_data import MultivariateFunctionalData
+
+    t = _Fv(case["t"])
+    tf = fl(t)
+    X0 = np.array(fl(_Fm(case["X"])))
+    B0, C0 = np.array(fl(_Fm(case["B"]))), np.array(fl(_Fm(case["C"])))
+    keep = case["keep"]
+    fl_ = case["flavour"]
+    st = dict(use_argvals_stand=case["stand"])
+    irr = fl_.startswith("irregular")
+    lp = dict(method_smoothing="LP", bandwidth=0.5) if irr else {}
+
+    def build(a):
+        X = X0 * float(a)  # exact: a is a power of two
+        if fl_ == "dense1":
+            return _dense([t], X)
+        if fl_ == "dense2":
+            m1 = 2 if X.shape[1] % 2 == 0 else 3
+            X = X[:, : X.shape[1] - X.shape[1] % m1]
+            return _dense([t[:m1], t[: X.shape[1] // m1]], X.reshape(len(X), m1, -1))
+        if fl_ == "basis1":
+            return _basis([t], B0, C0 * float(a))
+        if fl_ == "irregular-nan":
+            return _irregular([tf] * len(X), [[x if kp else float("nan") for x, kp in zip(r, k)] for r, k in zip(X.tolist(), keep)])
+        if fl_ == "irregular-points":
+            return _irregular([[u for u, kp in zip(tf, k) if kp] for k in keep], [[x for x, kp in zip(r, k) if kp] for r, k in zip(X.tolist(), keep)])
+        return MultivariateFunctionalData([_dense([t], X), _dense([t], (X[::-1] + float(a)).copy())])
+
+    def vv(f):
+        if hasattr(f, "data") and isinstance(f.data, list):
+            return [vv(c) for c in f.data]
+        return _vals(f) if hasattr(getattr(f, "values", None), "keys") else _grid_vals(f).tolist()
+
+    ops = {"center": (lambda f: vv(f.center(**lp)), 1),
+           "normalize": (lambda f: vv(f.normalize(**st)), 0),
+           "norm": (lambda f: np.asarray(f.norm(**st), dtype=float).tolist(), 1),
+           "standardize": (lambda f: vv(f.standardize(**lp)), 0),
+           "standardize(center=False)": (lambda f: vv(f.standardize(center=False, **lp)), 0),
+           "rescale weight": (lambda f: np.asarray(f.rescale(**st, **lp)[1], dtype=float).tolist(), 2),
+           "rescale values": (lambda f: vv(f.rescale(**st, **lp)[0]), 0)}
+    if fl_ == "basis1":
+        ops.pop("normalize")  # compared through to_grid below: the normalised COEFFICIENTS are what is scale-free
+        ops["normalize"] = (lambda f: _grid_vals(f.normalize()).tolist(), 0)
+    return _sweep(build, ops)
+
+
 def run_impl(case):
     kind = case["kind"]
     out = {}
+    if kind == "scale":
+        return _call(lambda: _impl_scale(case))
     if kind in ("dense1", "dense2", "basis1", "basis2"):
         _impl_grid(case, lambda: _build(case), out)
     elif kind == "irreg":
@@ -1752,6 +1812,18 @@ def oracle(case, impl):
         vs.append(dict(clause=clause, entry=entry, msg=msg, causes=list(causes)))
 
     kind = case["kind"]
+    if kind == "scale":
+        from c09 import _sweep_violations
+
+        cls = {"dense1": "DenseFunctionalData", "dense2": "DenseFunctionalData", "basis1": "BasisFunctionalData", "irregular-points": "IrregularFunctionalData",
+               "irregular-nan": "IrregularFunctionalData", "multivariate": "MultivariateFunctionalData"}[case["flavour"]]
+        if _err(impl):
+            bad("runs", f"amplitude sweep on {case['flavour']} data raised {impl['error']}: {impl.get('msg')}", cls)
+            return vs
+        # irregular standardize compares the smoothed sd with the ABSOLUTE threshold 1e-12 (mirrored; only finiteness is required there)
+        excl = ("standardize", "standardize(center=False)") if case["flavour"].startswith("irregular") else ()
+        _sweep_violations(impl, bad, lambda nm: cls + "." + nm.split("(")[0].split(" ")[0], excl)
+        return vs
     case = _resolve(case, impl)
     if case is None:
         return vs  # named basis with non-finite values (e.g. too few functions for the B-spline degree): C18's matter, counted in classify
@@ -1826,6 +1898,8 @@ def nontrivial(case, impl):
 
 
 def classify(case, impl):
+    if case["kind"] == "scale":
+        return ["kind:scale", "amplitude-sweep:" + case["flavour"]]
     tags = ["kind:" + case["kind"], "content:" + str(case.get("ck")), "stand:" + str(case.get("stand")), "integ:" + str(case.get("integ")),
             "center:" + str(case.get("center"))]
     if case["kind"] == "irreg":
